@@ -23,7 +23,8 @@ LEVEL = 'exploration'
 RULE = ('solved 2021-2023 returns (answer-on-demand) whose string inputs are replaced by adversarial printable-ASCII texts (balanced and '
         'unbalanced parentheses, backslashes, quotes, %, long) are filled through the real fill-pdfs path against a stand-in pdftk; '
         'oracle: independent FDF decoder + mapped texts, filing-rule table, limit table. Non-trivial = a fill whose texts contain a '
-        'PDF metacharacter, or that files at least 3 forms, or that carries an injected limit violation; distinct = (scenario, texts)')
+        'PDF metacharacter, or that files at least 3 forms, or that carries an injected limit violation; distinct = (scenario, texts)'
+        ' Ties: itemized total equal to the standard deduction to the dollar (federal and N.C.), with plain texts; hyphenated over-long texts.')
 ASSUMPTIONS = ['mapped text = PDFField.value(typed value read back from the solution) - the mapping is C18\'s subject, the transmission C19\'s',
                'data/filing_rules.json transcribes the IRS attachment sequence numbers and the NC assembly order',
                'printable ASCII only (the property\'s stated domain)']
@@ -231,7 +232,7 @@ def check_fill(ctx, sc, case, inject=None):
         return labels
 
 
-def check_injection(ctx, sc, draw, case, forced=None):
+def check_injection(ctx, sc, draw, case, forced=None, forced_value=None):
     """edit the written solution so that one length-limited box gets a value one
     character too long (or a choice box a value outside its list): the fill must
     stop with the documented error and never reach `cat`"""
@@ -262,7 +263,7 @@ def check_injection(ctx, sc, draw, case, forced=None):
                 if isinstance(m, hpfields.TextPDFField):
                     limit = tf.get(m.pdf_field_name, {}).get('maxlen') or m.max_length
                     if limit:
-                        cands.append((name, 'X' * (limit + 1), hpfields.PDFValueTooLong, m.pdf_field_name))
+                        cands.append((name, ('overlong', limit), hpfields.PDFValueTooLong, m.pdf_field_name))
                 elif isinstance(m, hpfields.ChoicePDFField):
                     cands.append((name, 'ZZ', hpfields.PDFInvalidChoiceValue, m.pdf_field_name))
         if not cands:
@@ -277,6 +278,17 @@ def check_injection(ctx, sc, draw, case, forced=None):
             choice_c = [c for c in cands if c[2] is hpfields.PDFInvalidChoiceValue]
             pool = choice_c if (choice_c and draw(st.integers(0, 2)) == 0) else cands
             name, value, exc_type, target = draw(st.sampled_from(pool))
+        if forced_value is not None:
+            value = forced_value
+        if isinstance(value, tuple):
+            # one character too long, in several spellings: plain, with a hyphen / space / digit group inside (a length
+            # test that ignores some characters lets these through), or two too long
+            limit = value[1]
+            kpos = draw(st.integers(0, limit))
+            value = draw(st.sampled_from(['X' * (limit + 1), 'X' * kpos + '-' + 'X' * (limit - kpos), 'X' * kpos + ' ' + 'X' * (limit - kpos),
+                                          '9' * kpos + '-' + '9' * (limit - kpos), 'X' * kpos + '.' + 'X' * (limit - kpos), 'Xy' * limit]))
+            if value != value.strip() or len(value) <= limit:
+                value = 'X' * (limit + 1)
         sec, key = name.split('.', 1)
         sol.set(sec, key, value)
         path = os.path.join(d, 'solution_injected.ini')
@@ -358,7 +370,7 @@ def shard(ctx, k, payload):
         sc2 = {'year': sc['year'], 'forms': sc['forms'], 'inputs': inputs}
         ctx.case()
         labels = check_fill(ctx, sc2, {'scenario': sc2})
-        if data.draw(st.integers(0, 3)) == 0:
+        if data.draw(st.integers(0, 1)) == 0:
             check_injection(ctx, {'year': sc['year'], 'forms': sc['forms'], 'inputs': sc['inputs']}, data.draw, {'scenario': scenario.slim(sc)})
         if labels is None:
             return
@@ -383,6 +395,6 @@ def run(ctx):
 def replay(ctx, case):
     if 'injected' in case:
         base = {k_: v_ for k_, v_ in case.items() if k_ != 'injected'}
-        check_injection(ctx, case['scenario'], None, base, forced=case['injected']['line'])
+        check_injection(ctx, case['scenario'], None, base, forced=case['injected']['line'], forced_value=case['injected'].get('value'))
         return
     check_fill(ctx, case['scenario'], case)
